@@ -170,8 +170,8 @@ def expect_arg(cfg, a, d, getdesc, path):
             raise Mismatch("%s: !value %s injected as %r" % (path, ref, d))
         return
     if a == "$gontainer":
-        if d.get("k") != "container":
-            raise Mismatch("%s: $gontainer injected as %r" % (path, d))
+        if d.get("k") != "container" or d.get("nil") or d.get("same") is not True:
+            raise Mismatch("%s: $gontainer must be the container itself, injected %r" % (path, d))
         return
     r = eval_pattern(cfg, a)
     if r[0] == "err":
